@@ -71,6 +71,19 @@ def is_finite(v) -> bool:
     return True
 
 
+def depth(v) -> int:
+    if isinstance(v, (list, tuple)):
+        return 1 + max([depth(x) for x in v], default=0)
+    if isinstance(v, dict):
+        return 1 + max([max(depth(k), depth(x)) for k, x in v.items()], default=0)
+    return 0
+
+
+def is_embeddable(v) -> bool:
+    """finite, and within CPython's 200-open-brackets tokenizer limit"""
+    return is_finite(v) and depth(v) <= 200
+
+
 def strings_of(v):
     if isinstance(v, str):
         yield v
@@ -121,6 +134,8 @@ def exact_eq(a, b) -> bool:
     if type(a) is not type(b):
         return False
     if isinstance(a, float):
+        if a != a or b != b:
+            return a != a and b != b
         return a == b and math.copysign(1.0, a) == math.copysign(1.0, b)
     if isinstance(a, (list, tuple)):
         return len(a) == len(b) and all(exact_eq(x, y) for x, y in zip(a, b))
@@ -198,12 +213,20 @@ def impl_default(d):
 
     Evt = make_cls(d)
     s = ObjectStream[Evt](ast.Name(id="ds", ctx=ast.Load()), Evt)
-    return run(lambda: s.Select(lambda e: e.pt()).query_ast)
+    try:
+        q = s.Select(lambda e: e.pt())
+        return ("ok", q.query_ast)
+    except Exception as ex:  # noqa
+        return ("exc", type(ex).__name__)
 
 
 def impl_capture(v):
     s = ds()
-    return run(lambda: s.Select(lambda e: (e.x, v)).query_ast)
+    try:
+        q = s.Select(lambda e: (e.x, v))
+        return ("ok", q.query_ast)
+    except Exception as ex:  # noqa
+        return ("exc", type(ex).__name__)
 
 
 def transportable_py(v) -> bool:
@@ -304,7 +327,7 @@ def rand_value(r, depth):
 
 def deep_nests():
     out = []
-    for depth in (5, 20, 60, 90):
+    for depth in (5, 20, 60, 90, 199, 200, 201):
         v = "it's"
         w = (1,)
         d = {"k": -1}
